@@ -299,6 +299,14 @@ impl Vw {
                 st.count("states-with-account-checkpoints>=5", 1);
             }
         }
+        // an address nobody delegates to — here the token contract's own address — has no voting power
+        let own = self.q(i, "get_votes", (i.c.clone(),).into_val(e))?;
+        ensure!(own == 0, "votes=delegated-units", "after {:?}: get_votes(<the token contract itself>) = {} although nobody delegates to it", after, own);
+        if now > m.base {
+            let r = view(e, &i.c, "get_votes_at_checkpoint", (i.c.clone(), now - 1).into_val(e)).map_err(viol("get_votes_at_checkpoint"))?;
+            let got = u128::try_from_val(e, &r).expect("u128");
+            ensure!(got == 0, "past-votes", "after {:?}: get_votes_at_checkpoint(<the token contract itself>, {}) = {} although nobody ever delegated to it", after, now - 1, got);
+        }
         let ts = self.q(i, "get_total_supply", SVec::new(e))?;
         ensure!(ts == total, "total=sum(units)", "after {:?}: get_total_supply() = {}, units are {:?}", after, ts, m.units);
         st.count("present-comparisons", (4 * N + 1) as u64);
